@@ -150,7 +150,7 @@ def gen_params(rng, tier):
                                       D=int(rng.choice([me['D'], me['D'], 3])), nf=int(rng.choice([me['nf'], 2])),
                                       shape=1.5, rs=int(rng.integers(0, 100)))
     # large batches (many rows x many components): every row must be transformed
-    for D, rows in ((4096, 1500), (2048, 2500)):
+    for D, rows in ((4096, 1500), (2048, 2500), (4096, 4200)):
         out.append(dict(test='formula', kernel='gaussian', method='weight_only', seedtype='int', rs=3, nf=2, D=D, rows=rows,
                         shape=1.0, seed=int(rng.integers(1 << 30))))
     for i in range(n_l):
